@@ -80,6 +80,100 @@ fn check_time_text(t: &mut Tally, text: &str, h: u8, m: Option<u8>, s: Option<u8
     }
 }
 
+/// date-time values with and without time-zone offsets, and range texts `A-B`, `A-`, `-B`
+fn datetimes_and_ranges(t: &mut Tally) {
+    use dicom_core::chrono::{FixedOffset, NaiveDateTime, TimeZone};
+    use dicom_core::value::deserialize::parse_datetime_partial;
+    use dicom_core::value::range::{parse_date_range, parse_time_range, parse_datetime_range};
+    use dicom_core::value::PreciseDateTime;
+    use dicom_core::value::DicomDateTime;
+    let dates = [DicomDate::from_y(1999).unwrap(), DicomDate::from_ym(1999, 2).unwrap(), DicomDate::from_ymd(2000, 2, 29).unwrap(), DicomDate::from_ymd(1999, 12, 31).unwrap()];
+    let times = [DicomTime::from_h(7).unwrap(), DicomTime::from_hm(7, 8).unwrap(), DicomTime::from_hms(7, 8, 9).unwrap(), DicomTime::from_hms_milli(7, 8, 9, 50).unwrap(),
+                 DicomTime::from_hms_micro(23, 59, 59, 999_999).unwrap(), DicomTime::from_hms_micro(0, 0, 0, 1).unwrap()];
+    let offsets: [Option<i32>; 7] = [None, Some(0), Some(3600), Some(-1800), Some(-30 * 60 - 5 * 3600), Some(14 * 3600), Some(-12 * 3600)];
+    let zone_text = |secs: i32| format!("{}{:02}{:02}", if secs < 0 { '-' } else { '+' }, secs.abs() / 3600, secs.abs() % 3600 / 60);
+    for d in &dates {
+        for tm in std::iter::once(None).chain(times.iter().map(Some)) {
+            for off in &offsets {
+                t.cases += 1;
+                let precise_date = d.day().is_some();
+                let built = match (tm, off) {
+                    (None, None) => Ok(DicomDateTime::from_date(*d)),
+                    (None, Some(o)) => Ok(DicomDateTime::from_date_with_time_zone(*d, FixedOffset::east_opt(*o).unwrap())),
+                    (Some(tm), None) => DicomDateTime::from_date_and_time(*d, *tm),
+                    (Some(tm), Some(o)) => DicomDateTime::from_date_and_time_with_time_zone(*d, *tm, FixedOffset::east_opt(*o).unwrap()),
+                };
+                let label = format!("date-time {} {:?} offset {:?}", d.to_encoded(), tm.map(|x| x.to_encoded()), off);
+                let v = match built {
+                    Ok(v) => { if tm.is_some() && !precise_date { t.fail(format!("{}: a time after an imprecise date was accepted", label)); continue; } v }
+                    Err(e) => { if tm.is_some() && !precise_date { continue; } t.fail(format!("{}: constructor rejected a valid value: {}", label, e)); continue; }
+                };
+                let want_text = format!("{}{}{}", d.to_encoded(), tm.map(|x| x.to_encoded()).unwrap_or_default(), off.map(|o| zone_text(o)).unwrap_or_default());
+                let text = v.to_encoded();
+                if text != want_text { t.fail(format!("{}: encoded as {:?}, expected {:?}", label, text, want_text)); continue; }
+                match parse_datetime_partial(text.as_bytes()) {
+                    Ok(back) if back == v => {}
+                    other => { t.fail(format!("{}: text {:?} parses back as {:?}", label, text, other.map(|x| x.to_encoded()).map_err(|e| e.to_string()))); continue; }
+                }
+                // earliest / latest: first / last instant consistent with the components, in the value's own offset
+                let (e, l) = (v.earliest().ok(), v.latest().ok());
+                let de = d.earliest().ok();
+                let dl = d.latest().ok();
+                let te = tm.map(|x| x.earliest().ok()).unwrap_or(NaiveTime::from_hms_micro_opt(0, 0, 0, 0));
+                let tl = tm.map(|x| x.latest().ok()).unwrap_or(NaiveTime::from_hms_micro_opt(23, 59, 59, 999_999));
+                let (want_e, want_l) = match (de, dl, te, tl) {
+                    (Some(a), Some(b), Some(c), Some(dd)) => (NaiveDateTime::new(a, c), NaiveDateTime::new(b, dd)),
+                    _ => { t.fail(format!("{}: components have no bounds", label)); continue; }
+                };
+                let ok = match off {
+                    None => e == Some(PreciseDateTime::Naive(want_e)) && l == Some(PreciseDateTime::Naive(want_l)),
+                    Some(o) => {
+                        let z = FixedOffset::east_opt(*o).unwrap();
+                        e == z.from_local_datetime(&want_e).single().map(PreciseDateTime::TimeZone) && l == z.from_local_datetime(&want_l).single().map(PreciseDateTime::TimeZone)
+                    }
+                };
+                if !ok { t.fail(format!("{}: earliest={:?} latest={:?}, expected local {:?} .. {:?}", label, e, l, want_e, want_l)); }
+            }
+        }
+    }
+    // range texts
+    for a in &dates { for b in &dates {
+        t.cases += 3;
+        let (ta, tb) = (a.to_encoded(), b.to_encoded());
+        match parse_date_range(format!("{}-{}", ta, tb).as_bytes()) {
+            Ok(r) => { if a.earliest().ok() <= b.latest().ok() && (r.start().copied() != a.earliest().ok() || r.end().copied() != b.latest().ok()) { t.fail(format!("date range {}-{} = {:?} .. {:?}", ta, tb, r.start(), r.end())); } }
+            Err(e) => { if a.earliest().ok() <= b.latest().ok() { t.fail(format!("date range {}-{} rejected: {}", ta, tb, e)); } }
+        }
+        match parse_date_range(format!("{}-", ta).as_bytes()) { Ok(r) if r.start().copied() == a.earliest().ok() && r.end().is_none() => {} other => t.fail(format!("date range {}- = {:?}", ta, other.map(|r| (r.start().copied(), r.end().copied())).map_err(|e| e.to_string()))) }
+        match parse_date_range(format!("-{}", tb).as_bytes()) { Ok(r) if r.start().is_none() && r.end().copied() == b.latest().ok() => {} other => t.fail(format!("date range -{} = {:?}", tb, other.map(|r| (r.start().copied(), r.end().copied())).map_err(|e| e.to_string()))) }
+    } }
+    for a in &times { for b in &times {
+        t.cases += 3;
+        let (ta, tb) = (a.to_encoded(), b.to_encoded());
+        match parse_time_range(format!("{}-{}", ta, tb).as_bytes()) {
+            Ok(r) => { if a.earliest().ok() <= b.latest().ok() && (r.start().copied() != a.earliest().ok() || r.end().copied() != b.latest().ok()) { t.fail(format!("time range {}-{} = {:?} .. {:?}", ta, tb, r.start(), r.end())); } }
+            Err(e) => { if a.earliest().ok() <= b.latest().ok() { t.fail(format!("time range {}-{} rejected: {}", ta, tb, e)); } }
+        }
+        match parse_time_range(format!("{}-", ta).as_bytes()) { Ok(r) if r.start().copied() == a.earliest().ok() && r.end().is_none() => {} other => t.fail(format!("time range {}- = {:?}", ta, other.map(|r| (r.start().copied(), r.end().copied())).map_err(|e| e.to_string()))) }
+        match parse_time_range(format!("-{}", tb).as_bytes()) { Ok(r) if r.start().is_none() && r.end().copied() == b.latest().ok() => {} other => t.fail(format!("time range -{} = {:?}", tb, other.map(|r| (r.start().copied(), r.end().copied())).map_err(|e| e.to_string()))) }
+    } }
+    // date-time ranges, both ends with the same explicit offset (no ambiguity about the local zone)
+    let z = FixedOffset::east_opt(3600).unwrap();
+    let dts: Vec<DicomDateTime> = vec![
+        DicomDateTime::from_date_with_time_zone(dates[0], z), DicomDateTime::from_date_with_time_zone(dates[3], z),
+        DicomDateTime::from_date_and_time_with_time_zone(dates[2], times[2], z).unwrap(), DicomDateTime::from_date_and_time_with_time_zone(dates[3], times[4], z).unwrap(),
+    ];
+    for a in &dts { for b in &dts {
+        t.cases += 1;
+        let text = format!("{}-{}", a.to_encoded(), b.to_encoded());
+        let (want_s, want_e) = (a.earliest().ok(), b.latest().ok());
+        match parse_datetime_range(text.as_bytes()) {
+            Ok(r) => { if want_s <= want_e && (r.start() != want_s || r.end() != want_e) { t.fail(format!("date-time range {} = {:?} .. {:?}, expected {:?} .. {:?}", text, r.start(), r.end(), want_s, want_e)); } }
+            Err(e) => { if want_s <= want_e { t.fail(format!("date-time range {} rejected: {}", text, e)); } }
+        }
+    } }
+}
+
 fn main() {
     let mut t = Tally { cases: 0, bad: 0 };
     for y in 1..=9999u16 {
@@ -131,5 +225,6 @@ fn main() {
             }
         }
     }
+    datetimes_and_ranges(&mut t);
     println!("EXHAUSTIVE unit=C12.native cases={} mismatches={}", t.cases, t.bad);
 }
